@@ -113,6 +113,9 @@ func main() {
 		if *flagTier == "thorough" && *flagMutant == "" && *flagPatch == "" {
 			mres = runMutants(p, res, kf)
 		}
+		if *flagTier == "thorough" && *flagMutant == "" && *flagPatch == "" {
+			mres = append(mres, runSeeded(p, res, kf)...)
+		}
 		code := report(prog, p, res, mres, seed, time.Since(start))
 		if code > exit {
 			exit = code
@@ -198,6 +201,47 @@ func runMutants(p *rules.Prop, base rt.Result, kf rt.KnownFile) []mutantResult {
 		}()
 	}
 	wg.Wait()
+	return out
+}
+
+// runSeeded re-checks the independently produced breaking changes kept under /verif/seeded/<prop>-*/patch.diff
+// (see DESIGN.md): each must be reported as a new violation of its property.
+func runSeeded(p *rules.Prop, base rt.Result, kf rt.KnownFile) []mutantResult {
+	dirs, _ := filepath.Glob(filepath.Join(filepath.Dir(*flagKnown), "seeded", p.ID+"-*", "patch.diff"))
+	baseBad := map[string]bool{}
+	for _, f := range base.Findings {
+		if f.Status == rt.Violation {
+			baseBad[key(f)] = true
+		}
+	}
+	var out []mutantResult
+	for _, d := range dirs {
+		r := mutantResult{ID: "seeded/" + filepath.Base(filepath.Dir(d)), Expect: "any rule of " + p.ID}
+		ov, err := patchOverlay(*flagRepo, d)
+		if err != nil {
+			r.Status, r.Detail = "stale", "patch does not apply to the current tree"
+			out = append(out, r)
+			continue
+		}
+		prog, err := load.Load(load.Options{Dir: *flagRepo, Overlay: ov})
+		if err != nil {
+			r.Status, r.Detail = "broken", err.Error()
+			out = append(out, r)
+			continue
+		}
+		res := runProp(prog, p, "quick", kf)
+		for _, f := range res.Findings {
+			if f.Status == rt.Violation && !baseBad[key(f)] && r.By == "" {
+				r.By = key(f) + " @ " + f.Pos
+			}
+		}
+		if r.By != "" {
+			r.Status = "killed"
+		} else {
+			r.Status = "survived"
+		}
+		out = append(out, r)
+	}
 	return out
 }
 
